@@ -298,6 +298,14 @@ class Interp:
                 return sc[name]
         raise RefError(f"undefined {name}")
 
+    def _consume(self, name):
+        """a reference consumes the TOP-LEVEL name only if it resolves to the global scope (not to a
+        parameter, local or iterator of the same spelling)"""
+        for sc in reversed(self.env[1:]):
+            if name in sc:
+                return
+        self.consumed.add(name)
+
     def bind(self, name, val):
         self.env[-1][name] = val
 
@@ -322,7 +330,7 @@ class Interp:
         if k == "k":
             return int(e[1])
         if k == "v":
-            self.consumed.add(e[1])
+            self._consume(e[1])
             return self.lookup(e[1])
         if k == "bin":
             l, r = self.ev(e[2]), self.ev(e[3])
@@ -416,7 +424,7 @@ class Interp:
             t = v.type if isinstance(v, Sig) else None
             return Sig(t, d.ite(ct, self.as_val(v), d.const(0)))
         if k == "read":
-            self.consumed.add(e[1])
+            self._consume(e[1])
             key = self.mem_key(e[1])
             if key not in self.mems:
                 raise RefError("read of undeclared memory")
@@ -448,7 +456,7 @@ class Interp:
             return Sig(e[2], b.m.get(e[2], d.const(0)))
         if k == "out":
             ent = self.lookup(e[1])
-            self.consumed.add(e[1])
+            self._consume(e[1])
             return Bun({s: self.contents(ent.id, s) for s in self.U})
         if k == "call":
             return self.call(e[1], e[2])
